@@ -54,6 +54,7 @@ def main():
 
     # evidence and replay files of runs against another tree (mutants, seeded changes) never touch /verif/evidence
     out_dir = os.environ.get('VERIF_OUT_DIR') or (HERE if src == '/repo' else os.path.join(os.path.dirname(src), 'verif_out'))
+    os.environ['VERIF_TIER'] = args.tier        # read by kv.core (job watchdog)
     from kv import core
     mod = importlib.import_module(f'kv.props.{prop.lower()}')
     findings, fixed = core.load_known()
